@@ -58,8 +58,14 @@ def norm_host(h):
         lit, rest = h[: end + 1], h[end + 1:]
         if rest and not rest.startswith(":"):
             return None
+        if rest[1:] and not (rest[1:].isascii() and rest[1:].isdigit()):
+            return None  # what follows the colon is not a port
         return lit.lower()
-    h = h.partition(":")[0]
+    h, colon, port = h.partition(":")
+    if colon and port and not (port.isascii() and port.isdigit()):
+        # "port aside" means a port: 'localhost:@evil.com' or 'localhost:80@evil.com/x' name another authority to
+        # whoever builds a URL from them, they are malformed Hosts
+        return None
     try:
         return h.encode("idna").decode("ascii")
     except UnicodeError:
@@ -92,7 +98,7 @@ def ref_trusted(host, trusted):
 
 LABELS = ["localhost", "a", "evil", "com", "evillocalhost", "localhostevil", "xn--nxasmq6b", "ü", "LOCALHOST", "A" * 64, "", "127", "0", "1", "b-c", "a。b"]
 ENTRIES = ["[::1]", "[::1]:8080", "localhost", ".localhost", "127.0.0.1", "a.com", ".a.com", "ü.com", ".xn--nxasmq6b", "LOCALHOST", "." + "A" * 64 + ".com", "evil.com:8080", ".com"]
-PORTS = ["", ":80", ":abc", ":", ":99999"]
+PORTS = ["", ":80", ":abc", ":", ":99999", ":@evil.com", ":80@evil.com/x", ":8\u0660"]
 
 
 def host_pairs(rng, idx, of):
